@@ -921,3 +921,43 @@ def path_texts(cx, node, exprs, limit=4000, atom=None):
             if len(out) > limit:
                 raise AnalysisError(f'{cx.qual}: too many path histories')
     return out
+
+
+IMMUTABLE_NAMES = {'str', 'bytes', 'int', 'bool', 'float', 'frozenset', 'None', 'complex'}
+
+
+def memo_rule(R, oid, modules, why):
+    """MEM: no function of the given modules that hands out a mutable object is memoised (functools.lru_cache / cache): every caller of a
+    memoised function gets the *same* object, so what one caller (or the library itself) changes in place is what every later caller sees.
+    Zero instances is the normal case; the obligation is registered with the number of functions examined."""
+    P = R.P
+    R.ob(oid, 'no function handing out a mutable object is memoised (every caller would get the same object): ' + why)
+    n = 0
+    for q, f in sorted(P.funcs.items()):
+        if f.mod not in modules:
+            continue
+        n += 1
+        memo = [d for d in getattr(f.node, 'decorator_list', []) if ast.unparse(d).split('(')[0].split('.')[-1] in ('lru_cache', 'cache', 'cached_property')]
+        if not memo:
+            continue
+        rets = [r.value for r in ast.walk(f.node) if isinstance(r, ast.Return) and r.value is not None]
+        ann = ast.unparse(f.node.returns) if f.node.returns is not None else None
+
+        def immutable(e):
+            if isinstance(e, (ast.Constant, ast.JoinedStr)):
+                return True
+            if isinstance(e, ast.Call) and isinstance(e.func, ast.Name) and e.func.id in IMMUTABLE_NAMES | {'len', 'hash'}:
+                return True
+            if isinstance(e, ast.Call):
+                r = P.resolve(f.mod, e.func)
+                if r and r[0] == 'ext':
+                    return True          # an object of another library: opaque, assumed to be safe to share (stated assumption)
+            return False
+        if ann in IMMUTABLE_NAMES or (rets and all(immutable(e) for e in rets)):
+            R.ok(oid, f'{q} :: memoised, result immutable / opaque', f.loc(), ast.unparse(memo[0]))
+            continue
+        R.fail(oid, f'{q} :: memoised', q, memo[0], f'{q.rsplit(".", 1)[1]}() is memoised (`@{ast.unparse(memo[0])}`) and returns '
+               f'{"`" + ast.unparse(rets[0])[:50] + "`" if rets else "an object"}{" (-> " + ann + ")" if ann else ""}, which is mutable: all calls with equal arguments '
+               'return the same object, and a change made to it in place (by a caller or by the library) shows in the result of every later call', f.loc(memo[0]))
+    R.ok(oid, f'{len(modules)} module(s) :: functions examined', '', f'{n} functions')
+    return n
